@@ -35,6 +35,7 @@ struct StaticSubject {
         GenOpts o;
         o.eps = 4;
         o.size_hint = size_hint >= 100 ? 100u : std::min(size_hint, 70u);
+        o.exact_segments = true; // segment counts on the block boundaries of the succinct structures (64, 4096, 2^k, +-3)
         o.force_bimodal = size_hint >= 100 && sizeof(K) == 8; // a destination with >= 6*10^4 segments: long select superblocks in its succinct structures
         keys = gen_keys<K>(t, o, meta);
         desc = name + " " + describe_keys(keys, meta);
